@@ -9,6 +9,7 @@ four booleans wandb ckpt structured delete, then `<n> b1 … bn` = per-epoch "va
 `tracer <repaired|asis> <flags2> <rounds2>`                   →  events of a run with use_existing_chunks (run 2)
 `fsr    <repaired|asis> <flags1> <rounds1> <flags2> <rounds2>` →  file system at every crash point of run 2,
                                                                   starting from what run 1 (`run1Flags flags1`) left
+`traces <ver> <flagsA> <roundsA> <flagsB> <roundsB>` / `fss …` →  run B started in run A's folder (same save_ckpt_path)
 -/
 open SleapVerif SleapVerif.Proto SleapVerif.TrainTrace
 
@@ -82,6 +83,15 @@ def handle (line : String) : String :=
     match runP pCase2 rest with
     | some (v, (f1, r1), (f2, r2)) =>
       showStates ((List.range ((traceR v f2 r2).length + 1)).map fun n => fsReuseAt v f1 r1 f2 r2 n)
+    | none => "bad-op"
+  | "traces" :: rest =>
+    match runP pCase2 rest with
+    | some (v, (fA, _), (fB, rB)) => "ok " ++ " ".intercalate ((traceS v fA.ckpt fB rB).map Event.str)
+    | none => "bad-op"
+  | "fss" :: rest =>
+    match runP pCase2 rest with
+    | some (v, (fA, rA), (fB, rB)) =>
+      showStates ((List.range ((traceS v fA.ckpt fB rB).length + 1)).map fun n => fsSameAt v fA rA fB rB n)
     | none => "bad-op"
   | _ => "bad-op"
 
